@@ -23,7 +23,7 @@ THEOREMS = [
 ]
 COMPONENTS = ['translate vs the cvxpy.Problem actually constructed by OptimProblem.optimize (recorded in the harness process)',
               'exact Lagrangian certificate (driver op lagrangian) of every LP answer']
-RULE = ('random LP and MIP portfolios plus hand-made problems with boolean variables with non-0/1 bounds and duplicated mapping rows; solvers: default, SCIPY (HiGHS), CLARABEL for LP, SCIP for MIP; infeasible stream; '
+RULE = ('random LP and MIP portfolios plus hand-made problems with boolean variables with non-0/1 bounds and duplicated mapping rows; solvers: default, SCIPY (HiGHS), CLARABEL for LP, SCIP for MIP, and in 30 % of the CLARABEL cases the LP-only solver is kept for a MIP (an exception is no report; a reported failure must mean infeasible); infeasible stream; '
         'make_soft_problem followed by a plain optimise on the same object; non-trivial = solved problem with >= 1 restriction row binding or boolean variable; distinct by scenario hash')
 ASSUMPTIONS = ['optimality of MIP answers is cross-checked against an independent HiGHS MILP run on the same arrays (validation, not certificate)',
                'infeasibility claims: certified exactly (Farkas multipliers found numerically, bound evaluated over the rationals, theorem infeasible_of_negative_bound) when the LP relaxation is infeasible; otherwise (infeasible only through integrality) cross-checked with HiGHS on the same arrays',
@@ -45,6 +45,8 @@ def scenarios(seed, tier):
         s = gen.gen_portfolio(r2, tmax=8 if tier == 'quick' else 12, tz_prob=0.05,
                               market_prob=0.95 if i % 5 else 0.3)
         s['solver'] = r2.choice([None, None, 'SCIPY', 'CLARABEL', 'SCIP'])
+        # a solver that cannot take the problem (LP-only solver, MIP): an exception makes no report; 'not successful' does
+        s['keep_unfit_solver'] = r2.random() < 0.3
         s['soft_first'] = (i % 3 == 0)
         yield 'gen%d' % i, s
 
@@ -209,7 +211,10 @@ def run_case(scn, drv):
     mip = pf.is_mip(op)
     feats.append('mip' if mip else 'lp')
     if solver == 'CLARABEL' and mip:
-        solver = 'SCIPY'
+        if scn.get('keep_unfit_solver'):
+            feats.append('unfit-solver')
+        else:
+            solver = 'SCIPY'
     if solver == 'SCIP' and not mip:
         solver = None
     feats.append('solver:%s' % solver)
@@ -217,7 +222,10 @@ def run_case(scn, drv):
     op_snapshot = copy.deepcopy(op)
     if scn.get('soft_first') and mip:
         feats.append('soft-then-hard')
-        impl.solve(op, solver=solver, make_soft_problem=True)
+        try:
+            impl.solve(op, solver=solver, make_soft_problem=True)
+        except Exception as e:
+            feats.append('soft-solver-exception:' + type(e).__name__)
     n = len(op.c)
     has_inf = not (np.all(np.isfinite(op.l)) and np.all(np.isfinite(op.u)))
     if has_inf:
